@@ -436,6 +436,9 @@ class StatFamily(Family):
     name = "stat"
     exhaustive = False
     batch = 400
+    # failures of the capped finding stratum (F10c) must not use up the per-family failure record, or a
+    # defect that only shows in a later stratum (e.g. one storage dtype) would never be reported
+    known_findings_uncounted = True
     budget_share = 3.0
     case_timeout = 20.0
 
@@ -812,6 +815,7 @@ class HistFamily(Family):
     name = "hist"
     exhaustive = False
     batch = 500
+    known_findings_uncounted = True      # F10 stratum (see StatFamily)
     budget_share = 1.5
 
     def cases(self, tier, rng):
